@@ -22,6 +22,8 @@ pub struct Ctl {
     pub fail_len: usize,
     /// opening (read-only) a path containing this string fails with PermissionDenied; empty = off
     pub fail_open: String,
+    /// the failing open reports NotFound instead of PermissionDenied
+    pub fail_open_not_found: bool,
     /// number of upcoming positional reads (`read_from`) on read-only handles of paths containing `fail_read_path` that fail
     pub fail_reads: usize,
     pub fail_read_path: String,
@@ -51,7 +53,15 @@ impl FaultFs {
         c.callback = Some(cb);
     }
     pub fn fail_open(&self, path_contains: &str) {
-        self.ctl.lock().unwrap().fail_open = path_contains.to_string();
+        let mut c = self.ctl.lock().unwrap();
+        c.fail_open = path_contains.to_string();
+        c.fail_open_not_found = false;
+    }
+    /// like `fail_open`, but the error is the one a missing file gives (ErrorKind::NotFound)
+    pub fn fail_open_not_found(&self, path_contains: &str) {
+        let mut c = self.ctl.lock().unwrap();
+        c.fail_open = path_contains.to_string();
+        c.fail_open_not_found = true;
     }
     /// the next `n` positional reads of files whose path contains `path_contains` fail (transient read fault)
     pub fn fail_next_reads(&self, path_contains: &str, n: usize) {
@@ -201,7 +211,8 @@ impl FileSystem for FaultFs {
             let mut c = self.ctl.lock().unwrap();
             if !c.fail_open.is_empty() && path.to_string_lossy().contains(&c.fail_open) {
                 c.failures += 1;
-                return Err(Error::new(ErrorKind::PermissionDenied, "injected fault (open)"));
+                let kind = if c.fail_open_not_found { ErrorKind::NotFound } else { ErrorKind::PermissionDenied };
+                return Err(Error::new(kind, "injected fault (open)"));
             }
         }
         let f = self.inner.open_file(path)?;
